@@ -36,27 +36,32 @@ def _pkt_harness_names():
 PKT_FIELD_HARNESSES, PKT_NOPANIC_HARNESSES = _pkt_harness_names()
 
 
-def mirrors_for(unit, qual):
-    """Kani mirror harnesses of a Verus-verified function (used to arbitrate a
-    failed Verus obligation and to obtain a concrete counterexample)"""
+def mirrors_for(unit, qual, kind='body'):
+    """Kani mirror harnesses of a Verus-verified function, used to arbitrate a
+    failed Verus obligation and to obtain a concrete counterexample.
+    kind 'body': overflow / index / call-precondition failure -> no-panic harnesses qualify;
+    kind 'post' / 'ghost': only harnesses that state the same postcondition qualify."""
+    post = kind in ('post', 'ghost')
     if unit == 'pkt_views':
         parts = qual.split('::')
         pre = 'icmp4_' if parts[0] == 'icmpv4' else ('icmp6_' if parts[0] == 'icmpv6' else '')
         if len(parts) >= 2:
             view, meth = parts[-2], parts[-1]
-            if parts[-1] == 'split':
+            if meth == 'split':
                 return ['k_split_contract']
-            if parts[-1] == 'ipv4_options_length':
-                return ['k_Ipv4Packet_nopanic']
+            if meth == 'ipv4_options_length':
+                return [] if post else ['k_Ipv4Packet_nopanic']
             if view.endswith('Iter'):
-                return ['k_ExtensionsPacket_nopanic'] if view.startswith('ExtensionObject') else ['k_MplsLabelStackPacket_nopanic']
+                c = 'k_extobj_iter_contract' if view.startswith('ExtensionObject') else 'k_mpls_iter_contract'
+                n = 'k_ExtensionsPacket_nopanic' if view.startswith('ExtensionObject') else 'k_MplsLabelStackPacket_nopanic'
+                return [c] if post else [c, n]
             if view == 'Buffer':
                 return ['k_buffer_get_bytes_2', 'k_UdpPacket_source', 'k_Ipv4Packet_version']
             m = _re.match(r'(get|set)_(\w+)$', meth)
             res = []
             if m and ('k_%s%s_%s' % (pre, view, m.group(2))) in PKT_FIELD_HARNESSES:
                 res.append('k_%s%s_%s' % (pre, view, m.group(2)))
-            if ('k_%s%s_nopanic' % (pre, view)) in PKT_NOPANIC_HARNESSES and (not res or meth.startswith('get_')):
+            if not post and ('k_%s%s_nopanic' % (pre, view)) in PKT_NOPANIC_HARNESSES:
                 res.append('k_%s%s_nopanic' % (pre, view))
             return res
     return []
@@ -79,7 +84,7 @@ PROPS = {
         'level_text': 'split() is proved equal to a spec function written from RFC 4884 (compliant length attribute / legacy 128-octet convention) for every length and payload; lemmas: datagram and extension are disjoint in-bounds sub-ranges, compliant and legacy messages are recovered unchanged; the four split_payload_extension functions scale the length attribute by 4 (ICMPv4) / 8 (ICMPv6) for the whole range 0..=255; ExtensionObjectIter::next / MplsLabelStackIter::next yield an item iff the object header and declared length fit (resp. until the S bit), advance by the declared length / 4 octets and make progress.',
         'level_note': 'Trusted: shims as C12. Extensions::try_from (iterator adapters in trippy-core) is a bounded Kani stand-in.',
         'units': ['pkt_views'],
-        'kani': {'quick': ['k_split_contract', 'k_ExtensionsPacket_nopanic', 'k_MplsLabelStackPacket_nopanic']},
+        'kani': {'quick': ['k_split_contract', 'k_extobj_iter_contract', 'k_mpls_iter_contract', 'k_ExtensionsPacket_nopanic', 'k_MplsLabelStackPacket_nopanic']},
         'assumptions': [],
         'explanation': 'ICMP extension parsing',
     },
